@@ -449,6 +449,9 @@ impl<'a> Ex<'a> {
             None => {
                 if len == 0 {
                     (None, None, cls)
+                } else if self.m.areas.iter().any(|a| intersects(addr, len, a.start, a.len) && a.prot & 3 != 3) {
+                    // runs past the end of its area into (or out of) an area under a non-default mask: C09's verdict
+                    (Some(false), None, "straddles_masked")
                 } else {
                     (Some(false), None, cls)
                 }
@@ -459,7 +462,7 @@ impl<'a> Ex<'a> {
     fn note_access_fault(&mut self, cls: &str, len: u64) {
         match cls {
             "unmapped" | "at_end" => self.ctx.fault("unmapped_access"),
-            "straddles_end" | "straddles_start" => self.ctx.fault("straddle_area_end"),
+            "straddles_end" | "straddles_start" | "straddles_masked" => self.ctx.fault("straddle_area_end"),
             "wraps" => self.ctx.fault("extreme_address"),
             "denied" => self.ctx.fault("perm_revoke"),
             _ => {}
@@ -470,7 +473,7 @@ impl<'a> Ex<'a> {
     }
 
     fn verdict_prop(cls: &str) -> &'static str {
-        if cls == "denied" || cls == "write_only" || cls == "masked" {
+        if cls == "denied" || cls == "write_only" || cls == "masked" || cls == "straddles_masked" {
             "C09"
         } else {
             "C08"
